@@ -39,7 +39,7 @@ func H_C06_WellFormed(v *sym.V) {
 // H_C06_Congruent: for marker-free (regular) inputs, stripping the markers from
 // the redactable rendering gives the plain rendering through Formattable.
 func H_C06_Congruent(v *sym.V) {
-	g := newG(v, sym.REG)
+	g := newG(v, sym.Class(v.Param("cls", int(sym.REG))))
 	b := build(v, g, "e")
 	e, st := stageOf(v, b.Err)
 	verb := verbsVSP[v.Choice("verb", 3)]
@@ -60,4 +60,18 @@ func H_C06_Refusal(v *sym.V) {
 	want := "%!" + verb[1:] + "(" + fmt.Sprintf("%T", e) + ")"
 	v.Assert("refused@"+verb, r.StripMarkers() == want)
 	v.Assert("refused-no-input@"+verb, !tainted(string(r)))
+}
+
+// H_C06_Markers: well-formedness for inputs made of two marker runes around a
+// printable byte (the solver picks which markers): "\u203ax\u2039", "\u2039x\u2039", ...
+func H_C06_Markers(v *sym.V) {
+	g := newG(v, sym.MARK2)
+	b := g.BuildTiered("e", v.Param("D", 2),
+		[]gen.Kind{gen.LStd, gen.LNewfUnsafe, gen.LUserPlain, gen.LNew, gen.LHandledMsg, gen.LJoin},
+		[]gen.Kind{gen.WHint, gen.WWrapf, gen.WWrap, gen.WFmtPrefix, gen.WUserFull},
+		[]gen.Kind{gen.WHint, gen.WDetail, gen.WWrapf, gen.WWrap, gen.WFmtPrefix, gen.WUserFull, gen.WMark, gen.WSecondary, gen.WTags})
+	e, st := stageOf(v, b.Err)
+	verb := verbsVSP[v.Choice("verb", 3)]
+	r := string(redact.Sprintf(verb, e))
+	v.Assert("wellformed-markers@"+b.Kinds[0].String()+st, sym.WellFormedMarkers(r))
 }
